@@ -4,6 +4,9 @@ import (
 	"math"
 
 	"github.com/basecomplextech/baselibrary/buffer"
+	"github.com/basecomplextech/spec/internal/decode"
+	"github.com/basecomplextech/spec/internal/encode"
+	"github.com/basecomplextech/spec/internal/format"
 	"github.com/basecomplextech/spec/internal/types"
 	"github.com/basecomplextech/spec/internal/zzverif"
 )
@@ -223,19 +226,20 @@ func zzDirtyWriter() Writer {
 	switch zzverif.Param("PREV") {
 	case 0: // a completed message
 		m := w.Message()
-		m.Field(zzverif.Uint16()).Int64(zzverif.Int64())
-		m.Field(zzverif.Uint16()).String(zzverif.String(2))
+		m.Field(7).Float64(zzverif.Float64())
+		m.Field(300).String(zzverif.String(2))
 		m.Build()
 	case 1: // abandoned in the middle of nested objects
 		m := w.Message()
-		m.Field(zzverif.Uint16()).Uint32(zzverif.Uint32())
-		l := m.Field(zzverif.Uint16()).List()
-		l.Int32(zzverif.Int32())
+		m.Field(9).Float32(zzverif.Float32())
+		l := m.Field(3).List()
+		l.Byte(zzverif.Byte())
 		l.Message()
 	case 2: // failed (misuse), the state went back to the pool and comes back on Reset
 		l := w.List()
-		l.Int32(zzverif.Int32())
-		w.Message().Field(1).Bool(true) // field inside list: error
+		l.Byte(zzverif.Byte())
+		w.Value().Int32(1)
+		w.Value().Int32(2) // two values without an element/field in between: error
 		zzverif.Assume(w.Err() != nil)
 	}
 	stale := zzverif.Bytes(zzverif.Param("STALE"))
@@ -353,6 +357,11 @@ func ZZ_C08_Layout() {
 		for i := range tags {
 			zzverif.Assert(vals[i].reads(m.Field(tags[i])), "library-reads-reference")
 		}
+		other := zzverif.Uint16()
+		for i := range tags {
+			zzverif.Assume(other != tags[i])
+		}
+		zzverif.Assert(zzAbsentReadsZero(m, other), "library-reads-reference-absent-tag")
 	}
 	zzverif.Observe("out", out)
 	zzverif.Reach("done")
@@ -367,5 +376,135 @@ func ZZ_C08_History() {
 	dirty := zzC08run(zzDirtyWriter(), shape, tags, vals)
 	zzverif.Assert(len(fresh) == len(dirty), "history-length")
 	zzverif.Assert(string(fresh) == string(dirty), "history-independent-bytes")
+	zzverif.Reach("done")
+}
+
+// ZZ_C08_Sized: byte strings and strings of the size-class boundary lengths against the reference.
+func ZZ_C08_Sized() {
+	n := zzverif.Param("LEN")
+	raw := zzverif.BytesSparse(n, 4)
+	var v zzVal
+	if zzverif.Param("T") == 0 {
+		v = zzVal{kind: zzBytes, raw: raw}
+	} else {
+		v = zzVal{kind: zzString, str: string(raw)}
+	}
+	w := New(false)
+	zzverif.Assert(v.write(w.Value()) == nil, "write-ok")
+	out, err := w.Value().Build()
+	zzverif.Assert(err == nil, "build-ok")
+	ref := refScalar(nil, v)
+	zzverif.Assert(len(out) == len(ref), "layout-length")
+	// compare the size/type trailer and the ends of the payload byte by byte
+	k := 12
+	if k > len(ref) {
+		k = len(ref)
+	}
+	zzverif.Assert(string(out[len(out)-k:]) == string(ref[len(ref)-k:]), "layout-trailer")
+	zzverif.Assert(string(out[:k]) == string(ref[:k]), "layout-head")
+	zzverif.Reach("done")
+}
+
+// ZZ_C08_MsgTableLayout: the table layer against the reference on arbitrary contents: N fields with
+// strictly increasing symbolic 16-bit tags and symbolic 32-bit end offsets. Decides "big form
+// exactly when a tag exceeds 255 or an offset exceeds 65535" for all tags/offsets.
+func ZZ_C08_MsgTableLayout() {
+	n := zzverif.Param("N")
+	table := make([]format.MessageField, n)
+	for i := range table {
+		table[i] = format.MessageField{Tag: zzverif.Uint16(), Offset: zzverif.Uint32()}
+		if i > 0 {
+			zzverif.Assume(table[i-1].Tag < table[i].Tag)
+		}
+	}
+	dataSize := zzverif.Uint32()
+	zzverif.Assume(dataSize <= format.MaxSize)
+	buf := buffer.New()
+	_, err := encode.EncodeMessageTable(buf, int(dataSize), table)
+	zzverif.Assert(err == nil, "encode-ok")
+	// reference
+	big := false
+	for i := range table {
+		if table[i].Tag > 255 || table[i].Offset > 65535 {
+			big = true
+		}
+	}
+	var ref []byte
+	for i := range table {
+		if big {
+			ref = refBE(ref, uint64(table[i].Tag), 2)
+			ref = refBE(ref, uint64(table[i].Offset), 4)
+		} else {
+			ref = append(ref, byte(table[i].Tag))
+			ref = refBE(ref, uint64(table[i].Offset), 2)
+		}
+	}
+	tsz := len(ref)
+	ref = refVarint(ref, uint64(dataSize))
+	ref = refVarint(ref, uint64(tsz))
+	if big {
+		ref = append(ref, 81)
+	} else {
+		ref = append(ref, 80)
+	}
+	out := buf.Bytes()
+	zzverif.Assert(len(out) == len(ref), "table-layout-length")
+	zzverif.Assert(string(out) == string(ref), "table-layout-bytes")
+	// the library reads the reference table identically (needs dataSize bytes of body in front)
+	zzverif.Assume(dataSize <= 2)
+	b := append(make([]byte, dataSize), ref...)
+	t, size, err := decode.DecodeMessageTable(b)
+	zzverif.Assert(err == nil && size == len(b) && t.Len() == n, "library-decodes-reference-table")
+	for i := range table {
+		zzverif.Assert(t.Offset(table[i].Tag) == int(table[i].Offset), "library-finds-reference-field")
+	}
+	other := zzverif.Uint16()
+	for i := range table {
+		zzverif.Assume(other != table[i].Tag)
+	}
+	zzverif.Assert(t.Offset(other) == -1, "library-absent-in-reference")
+	zzverif.Reach("done")
+}
+
+// ZZ_C08_ListTableLayout: list tables against the reference: N symbolic non-decreasing offsets;
+// big form exactly when N > 255 or the last offset exceeds 65535.
+func ZZ_C08_ListTableLayout() {
+	n := zzverif.Param("N")
+	table := make([]format.ListElement, n)
+	for i := range table {
+		if n > 8 {
+			table[i] = format.ListElement{Offset: uint32(i * 2)} // large counts: concrete offsets
+		} else {
+			table[i] = format.ListElement{Offset: zzverif.Uint32()}
+			if i > 0 {
+				zzverif.Assume(table[i-1].Offset <= table[i].Offset)
+			}
+		}
+	}
+	dataSize := zzverif.Uint32()
+	zzverif.Assume(dataSize <= format.MaxSize)
+	buf := buffer.New()
+	_, err := encode.EncodeListTable(buf, int(dataSize), table)
+	zzverif.Assert(err == nil, "encode-ok")
+	big := n > 255 || (n > 0 && table[n-1].Offset > 65535)
+	var ref []byte
+	for i := range table {
+		if big {
+			ref = refBE(ref, uint64(table[i].Offset), 4)
+		} else {
+			ref = refBE(ref, uint64(table[i].Offset), 2)
+		}
+	}
+	tsz := len(ref)
+	ref = refVarint(ref, uint64(dataSize))
+	ref = refVarint(ref, uint64(tsz))
+	if big {
+		ref = append(ref, 71)
+	} else {
+		ref = append(ref, 70)
+	}
+	out := buf.Bytes()
+	zzverif.Assert(len(out) == len(ref), "list-table-layout-length")
+	zzverif.Assert(string(out) == string(ref), "list-table-layout-bytes")
 	zzverif.Reach("done")
 }
